@@ -487,6 +487,11 @@ class BodyInfo:
                     continue
                 if d[2] == "assign" and d[3]["k"] == "agg" and d[3].get("ak") == "adt" and d[3].get("vname"):
                     defs.append((d[0], d[3]["vname"]))
+                    continue
+                # `failure = Some(err)` on a local that needs dropping goes through a temporary
+                t_ = self.T._of_def(L, d, 1) if d[2] == "assign" and d[3]["k"] == "use" else None
+                if t_ is not None and t_[0] == "agg" and isinstance(t_[1], tuple) and len(t_[1]) == 2 and isinstance(t_[1][1], str):
+                    defs.append((d[0], t_[1][1]))
                 else:
                     ok = False
             if ok and defs:
